@@ -385,6 +385,15 @@ func isKnown(id string) bool {
 	return ok && k.Status == "known"
 }
 
+// examplesRunning is set while the listed examples are replayed: in-check tolerance
+// is then off, so that an example really has to fail the way its entry says.
+var examplesRunning bool
+
+// tolerate reports whether a check may step around the listed known finding id.
+func tolerate(id string) bool {
+	return isKnown(id) && !examplesRunning
+}
+
 // explainedByKnown returns the id of a listed known finding whose predicate
 // recognises this failing case, or "".
 func explainedByKnown(prop, sub string, raw json.RawMessage, v *Violation) string {
@@ -406,6 +415,8 @@ func explainedByKnown(prop, sub string, raw json.RawMessage, v *Violation) strin
 // runKnownExamples replays the example of every listed known finding of a
 // property and prints the KNOWN-FINDING line when it still fails that way.
 func runKnownExamples(t *testing.T, prop string) {
+	examplesRunning = true
+	defer func() { examplesRunning = false }()
 	for _, k := range knownList {
 		if k.Property != prop || k.Example == nil {
 			continue
